@@ -35,7 +35,8 @@ def worker(inst, tier):
     from vlib import cg, jx, smt
 
     obs = []
-    nodes, cgr, g = cg.build(inst)
+    from vlib import fixtures
+    nodes, cgr, g = cg.build(inst, node_cls=fixtures.ProbeNodeRng)  # every node (the supervisor too) consumes and advances its rng
     gs0 = g.init(jax.random.PRNGKey(1))
     sup = g.supervisor.name
     n = 2 if tier == "quick" else 3
